@@ -1,13 +1,14 @@
 SPECIFICATION Spec
 CONSTANTS
   Sender = {"s1", "s2"}
-  MaxNonce = 3
-  StateNonce = {0, 1}
+  MaxNonce = 2
+  StateNonce = {0}
   MaxCost = 8
   BuiltIn <- MCBuiltIn
   BiName = "payFees"
-  Class = {"ok", "fail", "stale", "sc", "bi"}
-  MaxPool = 3
+  Class = {"ok", "bi"}
+  MaxPool = 2
   FilterBuiltins = FALSE
+VIEW View
 INVARIANTS NoDuplicate ConsecutiveNonces CostLimit BuiltinsOnce VerifierAgrees
 CHECK_DEADLOCK FALSE
